@@ -311,6 +311,10 @@ class GPView(View):
       self.dim_with_task,
     )
 
+  @property
+  def pending_points_enter_as_lies(self):
+    return self.params["parallelism"] == PARALLEL_CONSTANT_LIAR
+
   def form_one_hot_covariance_base(self, domain, hyperparameter_dict):
     assert isinstance(domain, CategoricalDomain)
     length_scales = hyperparameter_dict["length_scales"]
@@ -347,7 +351,7 @@ class GPView(View):
       filtered_points_sampled_values,
       filtered_points_sampled_value_vars,
     )
-    if self.params["parallelism"] == PARALLEL_CONSTANT_LIAR:
+    if self.pending_points_enter_as_lies:
       one_hot_historical_data.append_lies(
         self.one_hot_points_being_sampled_points,
         filtered_scaled_lie_value,
